@@ -355,12 +355,70 @@ def _same(got, want):
     return i == len(got)
 
 
+def many_groups_stage(chk, b, tier):
+    """Ten groups whose rules are expensive to set up (regexps that take milliseconds to compile) next to cheap ones: whatever
+    order and overlap the per-group configuration reads have, every run shows every group with its own name and tally."""
+    import random as _r
+    rng = _r.Random("C15m|%d" % R.SEED)
+    d = os.path.join(b.scratchdir(), "manygroups")
+    shutil.rmtree(d, ignore_errors=True)
+    os.makedirs(d)
+    slow = "[a-z]{0,600}[0-9]{0,600}[a-z]{0,400}"
+    cfg = []
+    want = {}
+    for k in range(10):
+        ns = ["heads", "tags", "misc", "wip", "remotes"][k % 5]
+        cfg.append('[refgroup "g%d"]\n\tname = Group %d\n\tincludeRegexp = refs/%s/%s\n' % (k, k, ns, slow if k % 2 == 0 else ".*"))
+    cfg.append('[refgroup "tags"]\n\tname = Labels\n\texcludeRegexp = refs/tags/release/%s\n' % slow)
+    cfg.append('[refgroup "branches"]\n\tname = Lines\n')
+    blob = G.Blob(b"x\n")
+    c = G.Commit(G.Tree([G.Entry(G.FILE, b"f", blob)]), [], msg=b"only\n")
+    m = G.Model()
+    m.config = "".join(cfg)
+    for r_ in REFS:
+        m.refs[r_] = c
+    gitdir = G.write_model(m, os.path.join(d, "repo"))
+    p = G.rgit(gitdir, "config", "--list", "-z", check=False)
+    ents = [(k.decode(), v.decode()) for k, v in S.parse_config_z(p.stdout) if k.startswith(b"refgroup.") and v is not None]
+    forest = S.Forest(ents)
+    tallies = {}
+    for ref in REFS:
+        for sym in forest.tally(ref, True):
+            tallies[sym] = tallies.get(sym, 0) + 1
+    nrun = 14 if tier == "quick" else 120
+    bad = 0
+    for j in range(nrun):
+        env = {"GOMAXPROCS": ["16", "1", "2", "4", "8"][j % 5]}
+        r = R.sizer(b.sizer(), gitdir, ["--json", "--no-progress"] if j % 2 else ["-v", "--no-progress", "--names=none"], env=env, tmpdir=d)
+        chk.count()
+        if r.rc != 0 or r.timed_out:
+            bad += 1
+            chk.violation("C15/cli/many-groups/run-failed", {"rc": r.rc, "stderr": r.err[-300:].decode("utf-8", "replace"), "run": j})
+            continue
+        if j % 2:
+            js, _ = P.parse_json(r.out)
+            if js is None or js.get("reference_groups") != tallies:
+                bad += 1
+                chk.violation("C15/cli/many-groups/tallies-differ", {"run": j, "got": (js or {}).get("reference_groups"), "want": tallies})
+        else:
+            tab = P.parse_table(r.out, lenient=True)
+            rows = {r_.name.decode("utf-8", "replace") for p_, r_ in P.rows_with_paths(tab) if p_[:2] == ("Overall repository size", "References")}
+            missing = [n for n in ["Group %d" % k for k in range(10) if ("g%d" % k) in tallies] + ["Labels", "Lines"] if n not in rows]
+            if missing:
+                bad += 1
+                chk.violation("C15/cli/many-groups/display-names-missing", {"run": j, "missing": missing[:5]})
+    chk.cov["many_groups_stage"] = {"groups": 12, "runs": nrun, "runs_deviating": bad}
+    chk.nontrivial("many-groups")
+    shutil.rmtree(d, ignore_errors=True)
+
+
 def run(chk, b, tier):
     n = 240 if tier == "quick" else 30000
     drv = b.apidrv()
     sz = b.sizer()
     scratch = b.scratchdir()
     shimdir = b.shimdir()
+    many_groups_stage(chk, b, tier)
     jobs = [(R.SEED, i, drv, sz, scratch, shimdir) for i in range(n)]
     res = R.pmap(one_case, jobs, chunksize=4, chk=chk)
     for r in res:
